@@ -268,15 +268,51 @@ func checkC07(p *core.Program, r *core.Report) {
 
 	// ---- R3
 	var rw *ssa.Function
+	var rwHelpers []*ssa.Function // functions rw delegates a container kind to and that call rw back
 	for f := range reach {
 		rec := false
+		var helpers []*ssa.Function
 		core.EachInstr(f, func(in ssa.Instruction) {
-			if c := core.Common(in); c != nil && c.StaticCallee() == f {
+			c := core.Common(in)
+			if c == nil || c.StaticCallee() == nil {
+				return
+			}
+			t := c.StaticCallee()
+			if t == f {
 				rec = true
+				return
+			}
+			if reach[t] && t.Blocks != nil {
+				back := false
+				core.EachInstr(t, func(y ssa.Instruction) {
+					if cy := core.Common(y); cy != nil && cy.StaticCallee() == f {
+						back = true
+					}
+				})
+				if back {
+					rec = true
+					helpers = append(helpers, t)
+				}
 			}
 		})
-		if rec {
-			rw = f
+		// the dispatcher is the one with the type switch over the container kinds
+		hasSwitch := false
+		core.EachInstr(f, func(in ssa.Instruction) {
+			if ta, ok := in.(*ssa.TypeAssert); ok && core.TypeIs(ta.AssertedType, "gitlab.com/c0b/go-ordered-json", "OrderedMap") {
+				hasSwitch = true
+			}
+		})
+		if rec && (hasSwitch || rw == nil) {
+			rw, rwHelpers = f, helpers
+		}
+	}
+	eachRW := func(f func(in ssa.Instruction)) {
+		if rw == nil {
+			return
+		}
+		core.EachInstr(rw, f)
+		for _, h := range rwHelpers {
+			core.EachInstr(h, f)
 		}
 	}
 	if rw == nil {
@@ -311,7 +347,7 @@ func checkC07(p *core.Program, r *core.Report) {
 			return ok && c.Call.StaticCallee() == rw
 		}
 		nem := 0
-		core.EachInstr(rw, func(in ssa.Instruction) {
+		eachRW(func(in ssa.Instruction) {
 			switch x := in.(type) {
 			case *ssa.MapUpdate:
 				nem++
@@ -385,19 +421,28 @@ func checkC07(p *core.Program, r *core.Report) {
 			r.Fail(R3, name+" emits rewritten children", p.Pos(rw.Pos()), "expected an object-member and an array-element emission")
 		}
 		// emitted containers are never nil (an empty array/object must not become null)
-		core.EachInstr(rw, func(in ssa.Instruction) {
+		eachRW(func(in ssa.Instruction) {
 			ret, ok := in.(*ssa.Return)
 			if !ok || len(ret.Results) != 1 {
 				return
 			}
 			v := core.ResultOf(ret, 0)
-			mi, ok := v.(*ssa.MakeInterface)
-			if !ok {
+			var sliceVal ssa.Value
+			if mi, ok := v.(*ssa.MakeInterface); ok {
+				sliceVal = mi.X
+			} else if in.Parent() != rw {
+				sliceVal = v // a helper returns the slice itself
+			}
+			if sliceVal == nil {
 				return
 			}
-			if _, isSlice := mi.X.Type().Underlying().(*types.Slice); !isSlice {
+			if _, isSlice := sliceVal.Type().Underlying().(*types.Slice); !isSlice {
 				return
 			}
+			if c, isCall := sliceVal.(*ssa.Call); isCall && !isBuiltin(c, "append") {
+				return // built by a helper, judged at the helper's own return
+			}
+			mi := struct{ X ssa.Value }{sliceVal}
 			nilRoot := false
 			seen := map[ssa.Value]bool{}
 			var walk func(x ssa.Value, d int)
@@ -443,6 +488,82 @@ func checkC07(p *core.Program, r *core.Report) {
 			r.OK(R3, name+" returns scalars unchanged", p.Pos(rw.Pos()), "default case returns its input")
 		} else {
 			r.Fail(R3, name+" returns scalars unchanged", p.Pos(rw.Pos()), "no path returns the input value itself")
+		}
+		// ... and nothing else is returned for a scalar: every return is the input itself or a container the
+		// function built (a case that converts a scalar - json.Number to int64/float64, a string to something
+		// else - changes number literals or string contents on the wire)
+		convBad := false
+		core.EachInstr(rw, func(in ssa.Instruction) {
+			ret, ok := in.(*ssa.Return)
+			if !ok || len(ret.Results) != 1 {
+				return
+			}
+			v := core.ResultOf(ret, 0)
+			if core.Canon(v) == ssa.Value(rw.Params[0]) {
+				return
+			}
+			var okContainer func(x ssa.Value, d int) bool
+			okContainer = func(x ssa.Value, d int) bool {
+				if d > 6 {
+					return false
+				}
+				switch y := x.(type) {
+				case *ssa.MakeInterface:
+					switch y.X.Type().Underlying().(type) {
+					case *types.Slice, *types.Map:
+						return true
+					case *types.Pointer:
+						return true // *OrderedMap built locally
+					}
+					return false
+				case *ssa.Phi:
+					for _, e := range y.Edges {
+						if !okContainer(e, d+1) && core.Canon(e) != ssa.Value(rw.Params[0]) {
+							return false
+						}
+					}
+					return true
+				}
+				return false
+			}
+			if !okContainer(v, 0) {
+				convBad = true
+				r.Fail(R3, name+" returns only its input or a rebuilt container", p.Pos(ret.Pos()), "a case of the rewrite returns a converted scalar (not the input value itself): number literals beyond int64/float64 precision, or their spelling, change on the wire")
+			}
+		})
+		if !convBad {
+			r.OK(R3, name+" returns only its input or a rebuilt container", p.Pos(rw.Pos()), "no scalar is converted")
+		}
+	}
+
+	// ---- R7 the empty array survives the inverse direction
+	const R7 = "C07.R7 empty-array-preserved"
+	r.Rule(R7, "the inverse transform does not rewrite the two-byte wire token [] : the forward direction encodes an empty array as [] (unchanged), so an inverse that turns [] into {} makes {\"a\":[]} come back as {\"a\":{}}")
+	{
+		n := 0
+		core.EachInstr(from, func(in ssa.Instruction) {
+			c := core.Common(in)
+			if c == nil {
+				return
+			}
+			switch core.CalleeName(c) {
+			case "bytes.HasPrefix", "bytes.ReplaceAll", "bytes.Replace", "bytes.Equal", "bytes.Index", "strings.HasPrefix", "strings.ReplaceAll", "strings.Replace", "strings.Index":
+			default:
+				return
+			}
+			for _, a := range c.Args {
+				v := core.Canon(a)
+				if sl, ok := v.(*ssa.Slice); ok {
+					v = core.Canon(sl.X)
+				}
+				if k, ok := strConst(v); ok && k == "[]" {
+					n++
+					r.Fail(R7, "inverse rewrites [] in "+p.FnName(from), p.Pos(in.Pos()), "the inverse transform replaces the wire token [] (by {}): an empty array does not survive the round trip - {\"a\":[]} is returned as {\"a\":{}}", "JsonIntoEEBUSJson({\"a\":[]}) = {\"a\":[]} ; JsonFromEEBUSJson of that = {\"a\":{}}")
+				}
+			}
+		})
+		if n == 0 {
+			r.OK(R7, "inverse leaves [] alone in "+p.FnName(from), p.Pos(from.Pos()), "no rewrite of the empty-array token")
 		}
 	}
 
